@@ -204,6 +204,10 @@ class SymVC:
 
     may_raise = False
 
+    def setitem(self, arr, key, v):
+        """the CALLER changes an array it owns in place (same object, new contents)"""
+        self.I.set_item(arr, key, v)
+
     def ghost(self, name, fn):
         """a user-supplied callable (forward model, posterior ...): arbitrary, represented by `fn`"""
         return GhostFn(name, fn)
@@ -688,28 +692,50 @@ class NatVC:
             ih = SymObj(self.I.get_class(module, clsname), dict(_to_interp(fields)))
         return Handle(nat, ih)
 
+    def _iargs(self, x):
+        """interpreter-side copy of the arguments, made BEFORE the native call; an array object passed again (possibly changed in
+        place through vc.setitem in between) maps to the same interpreter tensor, so aliasing is preserved"""
+        if not self.crosscheck:
+            return None
+        if isinstance(x, np.ndarray):
+            al = self.__dict__.setdefault("_alias", {})
+            ent = al.get(id(x))
+            if ent is not None and ent[0] is x:
+                try:
+                    if _same(x, ent[1])[0]:
+                        return ent[1]
+                except Exception:
+                    pass
+            t = _to_interp(x)
+            al[id(x)] = (x, t)
+            return t
+        if isinstance(x, tuple):
+            return tuple(self._iargs(v) for v in x)
+        if isinstance(x, dict):
+            return {k: self._iargs(v) for k, v in x.items()}
+        return _to_interp(x)
+
     def call(self, obj, method, *args, **kwargs):
         nat_obj = obj.native if isinstance(obj, Handle) else obj
         f = getattr(nat_obj, method)
+        ia, ik = self._iargs(args), self._iargs(kwargs)
         return self._call(f, args, kwargs, f"{type(nat_obj).__name__}.{method}",
-                          (lambda: self.I.call(self.I.get_attr(obj.interp, method), _to_interp(args),
-                                               _to_interp(kwargs))) if isinstance(obj, Handle) and obj.interp is not None else None)
+                          (lambda: self.I.call(self.I.get_attr(obj.interp, method), ia, ik))
+                          if isinstance(obj, Handle) and obj.interp is not None else None)
 
     def callf(self, module, qualname, *args, **kwargs):
         mod = importlib.import_module(module)
         f = mod
         for p in qualname.split("."):
             f = getattr(f, p)
+        ia, ik = self._iargs(args), self._iargs(kwargs)
         return self._call(f, args, kwargs, qualname,
-                          lambda: self.I.call(self.I.get_function(module, qualname), _to_interp(args),
-                                              _to_interp(kwargs)))
+                          lambda: self.I.call(self.I.get_function(module, qualname), ia, ik))
 
     def _call(self, f, args, kwargs, label, interp_thunk):
         import copy as _copy
         nat_args = _to_native(args)
         nat_kw = _to_native(kwargs)
-        # the interpreter must see the arguments as they were before the native call (in-place writes)
-        pre_args = _copy.deepcopy((args, kwargs)) if self.crosscheck else None
         try:
             import warnings
             with warnings.catch_warnings():
@@ -740,6 +766,13 @@ class NatVC:
             return _SKIP
         except PathAbort:
             return _SKIP
+        except RecursionError:
+            self.cross_skipped.append(f"{label}: recursion limit in the interpreter")
+            return _SKIP
+        except Exception as e:
+            # the interpreter itself could not follow the (possibly changed) code: a limit of the cross-check, not a verdict
+            self.cross_skipped.append(f"{label}: interpreter could not follow the code ({type(e).__name__}: {str(e)[:120]})")
+            return _SKIP
         finally:
             Ctx.current = old
 
@@ -751,6 +784,19 @@ class NatVC:
 
     def attr(self, obj, name):
         return getattr(obj.native if isinstance(obj, Handle) else obj, name)
+
+    def setitem(self, arr, key, v):
+        arr[key] = v
+        ent = self.__dict__.get("_alias", {}).get(id(arr))
+        if ent is not None and ent[0] is arr:
+            c, old = Ctx(concrete=True), Ctx.current
+            Ctx.current = c
+            try:
+                self.I.set_item(ent[1], key, _to_interp(v))
+            except Exception:
+                self._alias.pop(id(arr), None)
+            finally:
+                Ctx.current = old
 
     def ghost(self, name, fn):
         def ihandler(*a, **k):
